@@ -345,14 +345,14 @@ impl World {
         let q = ChainQuerier { bank: &self.bank, contract: contract_addr() };
         let r = {
             let deps = DepsMut { storage: &mut self.kv, api: &api, querier: QuerierWrapper::new(&q) };
-            guarded(|| staking::contract::instantiate(deps, env, info, msg))
+            guarded(|| staking::contract::instantiate(deps, env, info, msg).map_err(|e| e.to_string()))
         };
         let res = match r {
             Err(_) => {
                 out.panicked = Some(take_panic());
                 Err("panic".to_string())
             }
-            Ok(Err(e)) => Err(e.to_string()),
+            Ok(Err(e)) => Err(e),
             Ok(Ok(resp)) => self.dispatch_all(resp, &mut out, 0),
         };
         self.finish(snap, res, out)
@@ -372,6 +372,14 @@ impl World {
             }
         }
         out
+    }
+
+    /// Execute a message given as the JSON document a client signs (decoded like the VM does).
+    pub fn exec_json(&mut self, sender: &str, text: &str, funds: &[(String, u128)]) -> TxOut {
+        match cosmwasm_std::from_json::<ExecuteMsg>(text.as_bytes()) {
+            Ok(msg) => self.exec(sender, msg, funds),
+            Err(e) => TxOut { ok: false, err: Some(format!("message does not decode: {e}")), undecodable: true, ..Default::default() },
+        }
     }
 
     /// Execute a message of the staking contract as a transaction.
@@ -402,14 +410,14 @@ impl World {
         let q = ChainQuerier { bank: &self.bank, contract: contract_addr() };
         let r = {
             let deps = DepsMut { storage: &mut self.kv, api: &api, querier: QuerierWrapper::new(&q) };
-            guarded(|| staking::contract::execute(deps, env, info, msg))
+            guarded(|| staking::contract::execute(deps, env, info, msg).map_err(|e| e.to_string()))
         };
         match r {
             Err(_) => {
                 out.panicked = Some(take_panic());
                 Err("panic".to_string())
             }
-            Ok(Err(e)) => Err(e.to_string()),
+            Ok(Err(e)) => Err(e),
             Ok(Ok(resp)) => self.dispatch_all(resp, out, 0),
         }
     }
@@ -475,7 +483,7 @@ impl World {
         let id = rep.id;
         let r = {
             let deps = DepsMut { storage: &mut self.kv, api: &api, querier: QuerierWrapper::new(&q) };
-            guarded(|| staking::contract::reply(deps, env, rep))
+            guarded(|| staking::contract::reply(deps, env, rep).map_err(|e| e.to_string()))
         };
         match r {
             Err(_) => {
@@ -737,14 +745,14 @@ impl World {
         let q = ChainQuerier { bank: &self.bank, contract: contract_addr() };
         let r = {
             let deps = DepsMut { storage: &mut self.kv, api: &api, querier: QuerierWrapper::new(&q) };
-            guarded(|| staking::contract::sudo(deps, env, msg))
+            guarded(|| staking::contract::sudo(deps, env, msg).map_err(|e| e.to_string()))
         };
         let res = match r {
             Err(_) => {
                 out.panicked = Some(take_panic());
                 Err("panic".to_string())
             }
-            Ok(Err(e)) => Err(e.to_string()),
+            Ok(Err(e)) => Err(e),
             Ok(Ok(resp)) => self.dispatch_all(resp, &mut out, 0),
         };
         self.finish(snap, res, out)
@@ -849,14 +857,14 @@ impl World {
         let q = ChainQuerier { bank: &self.bank, contract: contract_addr() };
         let r = {
             let deps = DepsMut { storage: &mut self.kv, api: &api, querier: QuerierWrapper::new(&q) };
-            guarded(|| staking::contract::migrate(deps, env, msg))
+            guarded(|| staking::contract::migrate(deps, env, msg).map_err(|e| e.to_string()))
         };
         let res = match r {
             Err(_) => {
                 out.panicked = Some(take_panic());
                 Err("panic".to_string())
             }
-            Ok(Err(e)) => Err(e.to_string()),
+            Ok(Err(e)) => Err(e),
             Ok(Ok(resp)) => self.dispatch_all(resp, &mut out, 0),
         };
         self.finish(snap, res, out)
@@ -869,10 +877,10 @@ impl World {
         let api = SimApi { prefix: PROTO_PREFIX };
         let q = ChainQuerier { bank: &self.bank, contract: contract_addr() };
         let deps = cosmwasm_std::Deps { storage: &self.kv, api: &api, querier: QuerierWrapper::new(&q) };
-        let r = guarded(|| staking::contract::query(deps, env, msg));
+        let r = guarded(|| staking::contract::query(deps, env, msg).map_err(|e| e.to_string()));
         match r {
             Err(_) => Err(format!("PANIC: {}", take_panic())),
-            Ok(Err(e)) => Err(e.to_string()),
+            Ok(Err(e)) => Err(e),
             Ok(Ok(b)) => Ok(b.to_vec()),
         }
     }
@@ -883,10 +891,10 @@ impl World {
         let api = SimApi { prefix: PROTO_PREFIX };
         let q = ChainQuerier { bank: &self.bank, contract: contract_addr() };
         let deps = cosmwasm_std::Deps { storage: &self.kv, api: &api, querier: QuerierWrapper::new(&q) };
-        let r = guarded(|| staking::contract::query(deps, env, msg));
+        let r = guarded(|| staking::contract::query(deps, env, msg).map_err(|e| e.to_string()));
         match r {
             Err(_) => Err(format!("PANIC: {}", take_panic())),
-            Ok(Err(e)) => Err(e.to_string()),
+            Ok(Err(e)) => Err(e),
             Ok(Ok(b)) => serde_json::from_slice(b.as_slice()).map_err(|e| format!("query decode: {e}")),
         }
     }
